@@ -301,6 +301,8 @@ Norm(v) ==
     [] v.k = "tsn"   -> [k |-> "tsn", s |-> MkInt(v.s.neg, v.s.mag), n |-> MkInt(v.n.neg, v.n.mag)]
     [] v.k = "durn"  -> [k |-> "durn", s |-> MkInt(v.s.neg, v.s.mag), n |-> MkInt(v.n.neg, v.n.mag)]
     [] v.k = "wrapv" -> [k |-> "wrapv", v |-> Norm(v.v)]
+    [] v.k = "bytes" -> [k |-> "bytes", b |-> v.b]           \* (drops transport annotations such as "handed in as a bytearray")
+    [] v.k = "bool"  -> [k |-> "bool", v |-> v.v]
     [] OTHER -> v
 NormMsg(m) == [n \in DOMAIN m |-> Norm(m[n])]
 
